@@ -2,9 +2,12 @@
 //! p_* suites evaluate the C05 and C18 (integer part) predicates on the real code.
 use crate::util::*;
 use embedded_graphics::{
+    pixelcolor::BinaryColor,
     prelude::*,
-    primitives::{Circle, ContainsPoint, Ellipse, OffsetOutline, Rectangle},
+    primitives::{Circle, ContainsPoint, Ellipse, OffsetOutline, PrimitiveStyle, Rectangle},
+    Pixel,
 };
+use std::collections::BTreeSet;
 
 fn window(x: i32, y: i32, w: u32, h: u32, m: i32) -> Vec<Point> {
     let mut v = Vec::new();
@@ -144,6 +147,48 @@ fn contiguity(inside: &[Point]) -> Result<(), String> {
     Ok(())
 }
 
+/// The C18 (integer part) predicates for one observation `has` of a circle / ellipse with bounding box (tl, w x h):
+/// half-pixel band against the ideal ellipse (exact integers, doubled coordinates relative to 2*tl + size - 1),
+/// mirror symmetry about both centre lines, row / column contiguity, and (circle) an accepted point on every box side.
+#[allow(clippy::too_many_arguments)]
+fn c18_shape_check(what: &str, obs: &str, has: &dyn Fn(Point) -> bool, win: &[Point], tl: Point, w: i128, h: i128, touches: bool) -> Result<usize, String> {
+    let (cx, cy) = (2 * tl.x as i128 + w - 1, 2 * tl.y as i128 + h - 1);
+    let within = |dx: i128, dy: i128, ww: i128, hh: i128| dx * dx * hh * hh + dy * dy * ww * ww < ww * ww * hh * hh;
+    let mut inside = Vec::new();
+    for p in win {
+        let (dx, dy) = (2 * p.x as i128 - cx, 2 * p.y as i128 - cy);
+        let inc = has(*p);
+        if inc && !within(dx, dy, w + 1, h + 1) {
+            return Err(format!("FAIL {} {} has {:?} which is outside the ideal shape grown by half a pixel", what, obs, p));
+        }
+        if w >= 1 && h >= 1 && within(dx, dy, w - 1, h - 1) && !inc {
+            return Err(format!("FAIL {} {} misses {:?} which is inside the ideal shape shrunk by half a pixel", what, obs, p));
+        }
+        if w >= 1 && h >= 1 {
+            let mx = Point::new((2 * tl.x as i128 + w - 1 - p.x as i128) as i32, p.y);
+            let my = Point::new(p.x, (2 * tl.y as i128 + h - 1 - p.y as i128) as i32);
+            if has(mx) != inc || has(my) != inc {
+                return Err(format!("FAIL {} {} is not mirror symmetric at {:?}", what, obs, p));
+            }
+        }
+        if inc {
+            inside.push(*p);
+        }
+    }
+    if let Err(e) = contiguity(&inside) {
+        return Err(format!("{} ({} {})", e, what, obs));
+    }
+    if touches && w >= 1 {
+        let (x1, y1) = (tl.x + w as i32 - 1, tl.y + h as i32 - 1);
+        let t = inside.iter().any(|p| p.y == tl.y) && inside.iter().any(|p| p.y == y1)
+            && inside.iter().any(|p| p.x == tl.x) && inside.iter().any(|p| p.x == x1);
+        if !t {
+            return Err(format!("FAIL {} {} does not touch all four sides of its bounding box", what, obs));
+        }
+    }
+    Ok(inside.len())
+}
+
 pub fn search(suite: &str, a: &[&str]) -> Option<String> {
     Some(match suite {
         "p_circ_c05" => {
@@ -265,89 +310,64 @@ pub fn search(suite: &str, a: &[&str]) -> Option<String> {
                 Err(e) => e,
             }
         }
-        // C18, circle: half-pixel band around the ideal circle (exact integers, doubled coordinates:
-        // centre = 2*top_left + d - 1, ideal radius = d), symmetry, contiguity, touches the box, = ellipse
+        // C18, circle: every predicate is evaluated on three observations of the shape: the set contains() accepts over
+        // box+margin, the list points() yields, and the pixels() of the fill-only styled shape
         "p_circ_c18" => {
             let c = Circle::new(pt(a[0], a[1]), u(a[2]));
-            let d = c.diameter as i64;
-            let (cx, cy) = (2 * c.top_left.x as i64 + d - 1, 2 * c.top_left.y as i64 + d - 1);
+            let d = c.diameter as i128;
             let win = window(c.top_left.x, c.top_left.y, c.diameter, c.diameter, 3);
             let e = Ellipse::new(c.top_left, Size::new(c.diameter, c.diameter));
-            let mut inside = Vec::new();
+            let fill = PrimitiveStyle::with_fill(BinaryColor::On);
+            let pts: BTreeSet<(i32, i32)> = c.points().map(|p| (p.x, p.y)).collect();
+            let pix: BTreeSet<(i32, i32)> = c.into_styled(fill).pixels().map(|Pixel(p, _)| (p.x, p.y)).collect();
+            let mut n = 0;
+            let obs: [(&str, Box<dyn Fn(Point) -> bool>); 3] = [
+                ("contains()", Box::new(|p| c.contains(p))),
+                ("points()", Box::new(|p: Point| pts.contains(&(p.x, p.y)))),
+                ("fill-only pixels()", Box::new(|p: Point| pix.contains(&(p.x, p.y)))),
+            ];
+            for (name, has) in obs.iter() {
+                match c18_shape_check("circle", name, has.as_ref(), &win, c.top_left, d, d, true) {
+                    Ok(k) => n += k,
+                    Err(m) => return Some(m),
+                }
+            }
+            // circle = ellipse with equal axes, on all three observations
             for p in &win {
-                let (dx, dy) = (2 * p.x as i64 - cx, 2 * p.y as i64 - cy);
-                let r2 = dx * dx + dy * dy;
-                let inc = c.contains(*p);
-                if inc && !(r2 < (d + 1) * (d + 1)) {
-                    return Some(format!("FAIL circle contains {:?} which is outside the ideal circle grown by half a pixel", p));
-                }
-                if d >= 1 && r2 < (d - 1) * (d - 1) && !inc {
-                    return Some(format!("FAIL circle misses {:?} which is inside the ideal circle shrunk by half a pixel", p));
-                }
-                if d >= 1 {
-                    let mx = Point::new(2 * c.top_left.x + c.diameter as i32 - 1 - p.x, p.y);
-                    let my = Point::new(p.x, 2 * c.top_left.y + c.diameter as i32 - 1 - p.y);
-                    if c.contains(mx) != inc || c.contains(my) != inc {
-                        return Some(format!("FAIL circle not mirror symmetric at {:?}", p));
-                    }
-                }
-                if e.contains(*p) != inc {
+                if e.contains(*p) != c.contains(*p) {
                     return Some(format!("FAIL circle and equal-axes ellipse disagree on contains({:?})", p));
-                }
-                if inc {
-                    inside.push(*p);
-                }
-            }
-            if let Err(e) = contiguity(&inside) {
-                return Some(e + " (circle)");
-            }
-            if d >= 1 {
-                let bb = c.bounding_box();
-                let br = bb.bottom_right().unwrap();
-                let t = inside.iter().any(|p| p.y == bb.top_left.y) && inside.iter().any(|p| p.y == br.y)
-                    && inside.iter().any(|p| p.x == bb.top_left.x) && inside.iter().any(|p| p.x == br.x);
-                if !t {
-                    return Some("FAIL circle does not touch all four sides of its bounding box".into());
                 }
             }
             if !c.points().eq(e.points()) {
                 return Some("FAIL circle points() differ from the equal-axes ellipse points()".into());
             }
-            format!("OK {}", inside.len())
+            if !c.into_styled(fill).pixels().eq(e.into_styled(fill).pixels()) {
+                return Some("FAIL circle fill-only pixels() differ from the equal-axes ellipse pixels()".into());
+            }
+            format!("OK {}", n)
         }
-        // C18, ellipse: band (ideal ellipse with semi-axes w, h in doubled coordinates, grown/shrunk by 1),
-        // symmetry, contiguity
+        // C18, ellipse: band (ideal ellipse with semi-axes w, h in doubled coordinates, grown/shrunk by 1), symmetry,
+        // contiguity - on contains(), points() and fill-only pixels()
         "p_ell_c18" => {
             let e = Ellipse::new(pt(a[0], a[1]), Size::new(u(a[2]), u(a[3])));
             let (w, h) = (e.size.width as i128, e.size.height as i128);
-            let (cx, cy) = (2 * e.top_left.x as i128 + w - 1, 2 * e.top_left.y as i128 + h - 1);
             let win = window(e.top_left.x, e.top_left.y, e.size.width, e.size.height, 3);
-            let mut inside = Vec::new();
-            let within = |dx: i128, dy: i128, ww: i128, hh: i128| dx * dx * hh * hh + dy * dy * ww * ww < ww * ww * hh * hh;
-            for p in &win {
-                let (dx, dy) = (2 * p.x as i128 - cx, 2 * p.y as i128 - cy);
-                let inc = e.contains(*p);
-                if inc && !within(dx, dy, w + 1, h + 1) {
-                    return Some(format!("FAIL ellipse contains {:?} which is outside the ideal ellipse grown by half a pixel", p));
-                }
-                if w >= 1 && h >= 1 && within(dx, dy, w - 1, h - 1) && !inc {
-                    return Some(format!("FAIL ellipse misses {:?} which is inside the ideal ellipse shrunk by half a pixel", p));
-                }
-                if w >= 1 && h >= 1 {
-                    let mx = Point::new(2 * e.top_left.x + e.size.width as i32 - 1 - p.x, p.y);
-                    let my = Point::new(p.x, 2 * e.top_left.y + e.size.height as i32 - 1 - p.y);
-                    if e.contains(mx) != inc || e.contains(my) != inc {
-                        return Some(format!("FAIL ellipse not mirror symmetric at {:?}", p));
-                    }
-                }
-                if inc {
-                    inside.push(*p);
+            let fill = PrimitiveStyle::with_fill(BinaryColor::On);
+            let pts: BTreeSet<(i32, i32)> = e.points().map(|p| (p.x, p.y)).collect();
+            let pix: BTreeSet<(i32, i32)> = e.into_styled(fill).pixels().map(|Pixel(p, _)| (p.x, p.y)).collect();
+            let mut n = 0;
+            let obs: [(&str, Box<dyn Fn(Point) -> bool>); 3] = [
+                ("contains()", Box::new(|p| e.contains(p))),
+                ("points()", Box::new(|p: Point| pts.contains(&(p.x, p.y)))),
+                ("fill-only pixels()", Box::new(|p: Point| pix.contains(&(p.x, p.y)))),
+            ];
+            for (name, has) in obs.iter() {
+                match c18_shape_check("ellipse", name, has.as_ref(), &win, e.top_left, w, h, false) {
+                    Ok(k) => n += k,
+                    Err(m) => return Some(m),
                 }
             }
-            if let Err(m) = contiguity(&inside) {
-                return Some(m + " (ellipse)");
-            }
-            format!("OK {}", inside.len())
+            format!("OK {}", n)
         }
         _ => return None,
     })
